@@ -142,3 +142,46 @@ func refGeomPossible(turn Color, t MoveType, from, to int) bool {
 	}
 	return false
 }
+
+// The structure symZobrist assumes is what NewZobristTable really builds: e.p. words exist
+// exactly on ranks 3 and 6, every other word used by Hash is present, and all used words
+// are pairwise distinct (so one changed component changes the hash). The real constructor
+// and the real math/rand source are executed in the interpreter (concrete evaluation).
+func harnessZobristStructure(seed int64) {
+	zt := NewZobristTable(seed)
+	verifReach("table")
+	seen := map[ZobristHash]bool{}
+	distinct := true
+	add := func(h ZobristHash) {
+		if seen[h] || h == 0 {
+			distinct = false
+		}
+		seen[h] = true
+	}
+	for c := ZeroColor; c < NumColors; c++ {
+		for p := ZeroPiece; p < NumPieces; p++ {
+			for sq := ZeroSquare; sq < NumSquares; sq++ {
+				add(zt.pieces[c][p][sq])
+			}
+		}
+		add(zt.turn[c])
+	}
+	for i := ZeroCastling; i < NumCastling; i++ {
+		add(zt.castling[i])
+	}
+	epOK := true
+	for sq := ZeroSquare; sq < NumSquares; sq++ {
+		onRank := sq.Rank() == Rank3 || sq.Rank() == Rank6
+		if onRank {
+			add(zt.enpassant[sq])
+		} else if zt.enpassant[sq] != 0 {
+			epOK = false
+		}
+	}
+	verifAssert(epOK, "e.p. table words exist only on ranks 3 and 6")
+	verifAssert(distinct, "all table words used by Hash are present and pairwise distinct (incl. the e.p. words of ranks 3 and 6)")
+}
+
+func Harness_C07_Table0() { harnessZobristStructure(0) }
+func Harness_C07_Table1() { harnessZobristStructure(1) }
+func Harness_C07_TableSeed() { harnessZobristStructure(int64(verifSeed()) + 2) }
